@@ -2,7 +2,7 @@
    code against Spec/DataSpec.v and the reference arithmetic restated here.  Imports neither Model/ nor
    Gen/, so it still evaluates when those no longer compile. *)
 From Coq Require Import String List ZArith NArith Bool.
-From Verif Require Import Spec.DataSpec Run.Show.
+From Verif Require Import Spec.DataSpec Spec.DataBlockSpec Run.Show.
 Import ListNotations.
 Open Scope string_scope.
 Open Scope list_scope.
@@ -123,12 +123,52 @@ Definition prop_scan (q : N) (text : list N) (expect : option (list N * list N))
   | None => true
   end.
 
+(* ---- values written as character literals; directives one after another and inside .repeat ------- *)
+Inductive roperand := RVal (v : Z) | RLit (chars : list Z).
+Inductive rdirl := RPlain (d : rdir) | RLitDir (name : string) (ops : list roperand).
+Inductive ritem := ROne (d : rdirl) | RRepeat (n : Z) (body : list rdirl).
+
+Definition soperand_of (o : roperand) : soperand := match o with RVal v => SVal v | RLit cs => SLit (ns cs) end.
+
+Definition width_of_name (name : string) : option width :=
+  if str_eqb name ".byte" || str_eqb name ".db" then Some W8 else
+  if str_eqb name ".word" || str_eqb name ".dw" then Some W16 else
+  if str_eqb name ".dword" then Some W32 else None.
+
+Definition to_sdirl (d : rdirl) : option sdirl :=
+  match d with
+  | RPlain d => match to_sdir d with Some sd => Some (SPlain sd) | None => None end
+  | RLitDir name ops => match width_of_name name with Some w => Some (SDataL w (map soperand_of ops)) | None => None end
+  end.
+
+Fixpoint all_some {A} (l : list (option A)) : option (list A) :=
+  match l with
+  | [] => Some []
+  | Some x :: rest => match all_some rest with Some xs => Some (x :: xs) | None => None end
+  | None :: _ => None
+  end.
+
+Definition to_sitem (it : ritem) : option sitem :=
+  match it with
+  | ROne d => match to_sdirl d with Some sd => Some (SOne sd) | None => None end
+  | RRepeat n body => match all_some (map to_sdirl body) with Some b => Some (SRepeat n b) | None => None end
+  end.
+
+(* the whole program against the images the Spec states, each directive at its running address *)
+Definition prop_items (enc : list N -> option (list Z)) (its : list ritem) (addr : Z) (o : dir_obs) : bool :=
+  match all_some (map to_sitem its) with
+  | Some sits => meets_items enc sits addr (observation_of o)
+  | None => match observation_of o with Refused => true | _ => false end
+  end.
+
 Inductive case :=
 | CGai (b : option Z) (u : bool) (d : option Z) (v : Z) (o : gai_obs)
 | CMeta (name : string) (aliases : list string) (raw : bool) (hints : list string) (mn : Z) (mx : option Z) (sizes : list (option Z))
 | CDir (bk : bool) (d : rdir) (addr : Z) (oracle : list (list Z * option (list Z))) (ann : option (option Z)) (o : dir_obs)
 | CScan (q : Z) (text : list Z) (expect : option (list Z * list Z)) (o : scan_obs)
-| CClass (spaces : list Z) (lowers : list (Z * Z)).
+| CClass (spaces : list Z) (lowers : list (Z * Z))
+| CDirL (bk : bool) (name : string) (ops : list roperand) (addr : Z) (oracle : list (list Z * option (list Z))) (ann : option (option Z)) (o : dir_obs)
+| CItems (bk : bool) (its : list ritem) (addr : Z) (oracle : list (list Z * option (list Z))) (o : dir_obs).
 
 Definition oracle_of (oracle : list (list Z * option (list Z))) : list N -> option (list Z) :=
   oracle_enc (map (fun kv => (ns (fst kv), snd kv)) oracle).
@@ -141,6 +181,9 @@ Definition prop_case (c : case) : bool :=
   | CScan q text expect o =>
       prop_scan (Z.to_N q) (ns text) (match expect with Some (s, r) => Some (ns s, ns r) | None => None end) o
   | CClass _ _ => true
+  | CDirL _ name ops addr oracle ann o =>
+      prop_items (oracle_of oracle) [ROne (RLitDir name ops)] addr o && prop_announce ann o
+  | CItems _ its addr oracle o => prop_items (oracle_of oracle) its addr o
   end.
 
 (* 0 = consistent with the property, 2 = contradicts it *)
